@@ -879,6 +879,28 @@ def s_opt_map(vm, st, callee, args, dest, ret_bb, m):
     return on_option(vm, st, args[0], lambda s: vm.ret(s, dest, ret_bb, none()), some_)
 
 
+def s_str_is_empty(vm, st, callee, args, dest, ret_bb, m):
+    s_ = as_str(vm, st, args[0])
+    if isinstance(s_.s, str):
+        return done(vm, st, dest, ret_bb, mk_bool(s_.s == ''))
+    return done(vm, st, dest, ret_bb, simp(s_.z() == z3.StringVal('')))
+
+
+def s_opt_filter(vm, st, callee, args, dest, ret_bb, m):
+    # Option<T>::filter(pred): Some(x) if pred(&x) else None
+    def some_(s, payload):
+        def after(vm_, st_, nf, value):
+            st_.frames.pop()
+            return fork_bool(vm_, st_, value,
+                             lambda s2: vm_.ret(s2, nf.dest, nf.ret_bb, some(payload)),
+                             lambda s2: vm_.ret(s2, nf.dest, nf.ret_bb, none()))
+        s.frames.append(NativeFrame('then', after, dest, ret_bb))
+        cell = s.alloc(payload)
+        vm.call_closure(s, args[1], [Ptr(cell, ())], None, None)
+        return None
+    return on_option(vm, st, args[0], lambda s: vm.ret(s, dest, ret_bb, none()), some_)
+
+
 def s_opt_and_then(vm, st, callee, args, dest, ret_bb, m):
     def some_(s, payload):
         vm.call_closure(s, args[1], [payload], dest, ret_bb)
@@ -1636,6 +1658,7 @@ TABLE = [
     # Option / Result
     (r'^Option::<.*>::map::<', s_opt_map),
     (r'^Option::<.*>::and_then::<', s_opt_and_then),
+    (r'^Option::<.*>::filter::<', s_opt_filter),
     (r'^Option::<.*>::unwrap_or$', s_opt_unwrap_or),
     (r'^Option::<.*>::unwrap_or_else::<', s_opt_unwrap_or_else),
     (r'^Option::<.*>::unwrap_or_default$', s_opt_unwrap_or_default),
@@ -1690,6 +1713,7 @@ TABLE = [
     (r'^core::str::<impl str>::(trim_matches|trim_start_matches|trim_end_matches)::<char>$', s_trim_matches_char),
     (r'^core::str::<impl str>::split::<char>$', s_str_split_char),
     (r'^core::str::<impl str>::trim$', s_str_trim),
+    (r'^core::str::<impl str>::is_empty$', s_str_is_empty),
     (r'^syn::parse_str::<LitStr>$', s_parse_litstr),
     (r'^LitStr::value$', s_litstr_value),
     (r'^syn::Error::new_spanned::<', s_syn_error),
